@@ -89,7 +89,7 @@ func zzLeafDepths(z *zzNode, out []int) []int {
 
 // balanced: all leaves at equal depth, at most width children per node; documented fill: left-packed, the DAG is
 // only as deep as needed.
-func zzBalancedShape(root *zzNode, width int) {
+func zzBalancedShape(root *zzNode, width int, wrapOK bool) {
 	ds := zzLeafDepths(root, nil)
 	eq := true
 	for _, d := range ds {
@@ -99,10 +99,10 @@ func zzBalancedShape(root *zzNode, width int) {
 	if !eq {
 		return
 	}
-	zzBalancedRec(root, width, ds[0], true)
+	zzBalancedRec(root, width, ds[0], true, wrapOK)
 }
 
-func zzBalancedRec(z *zzNode, width int, leafDepth int, isRoot bool) {
+func zzBalancedRec(z *zzNode, width int, leafDepth int, isRoot bool, wrapOK bool) {
 	if len(z.kids) == 0 {
 		return
 	}
@@ -116,11 +116,13 @@ func zzBalancedRec(z *zzNode, width int, leafDepth int, isRoot bool) {
 		}
 	}
 	if isRoot {
-		packed = packed && len(z.kids) >= 2
+		// the DAG is only as deep as needed; a File node wrapped around a single leaf is tolerated only where the
+		// leaf alone could not carry requested attributes (wrapOK)
+		packed = packed && (len(z.kids) >= 2 || wrapOK)
 	}
 	verifrt.Assert("C07.balanced-packed", packed)
 	for _, k := range z.kids {
-		zzBalancedRec(k, width, leafDepth, false)
+		zzBalancedRec(k, width, leafDepth, false, false)
 	}
 }
 
@@ -166,7 +168,9 @@ func zzRunC07(layout int) {
 	if layout == 1 {
 		leafType = ft.TRaw
 	}
-	zzCheckKinds("C07", root, prefix, raw, leafType, n == 0)
+	// a file that is a single node may have to be a UnixFS node whatever leaf type was requested: the empty file,
+	// and a one-chunk file that must carry attributes (a raw node cannot)
+	zzCheckKinds("C07", root, prefix, raw, leafType, n == 0 || (n == 1 && attrs != 0))
 
 	// attributes: the root carries exactly what was requested, nothing below it carries any
 	if attrs != 0 {
@@ -182,7 +186,7 @@ func zzRunC07(layout int) {
 
 	// shape
 	if layout == 0 {
-		zzBalancedShape(root, width)
+		zzBalancedShape(root, width, n <= 1 && attrs != 0 && raw)
 	} else {
 		verr := VerifyTrickleDagStructure(rootNd, VerifyParams{Getter: ds, Direct: width, LayerRepeat: depthRepeat, Prefix: &prefix, RawLeaves: raw})
 		verifrt.Assert("C07.trickle-verify", verr == nil)
